@@ -116,6 +116,14 @@ def writeRaw (s : Sess) : Sess × Bool :=
   | some (n + 1) => ({ s with wleft := some n }, true)
   | none => (s, true)
 
+/-- the session state once the startup packet has been read: the rest of the stream cut into
+    typed messages; a client that has hung up leaves either a clean end or an incomplete message -/
+def sessionStart (s0 : Sess) (rest : Bytes) : Sess :=
+  let tail := match s0.inp.tail with
+    | .eof _ => Tail.eof (!(leftover s0.inp.L rest).isEmpty)
+    | t => t
+  { s0 with inp := { s0.inp with items := deframe s0.inp.L rest, tail := tail } }
+
 /-- `handleAuth` (auth.go): `none` = the connection is authenticated and serving goes on;
     `some e` = the connection ends here (`closed`) or the server waits for the password message -/
 def authPhase (cfg : Config) (h : Handlers) (s : Sess) (db user : Bytes) : Sess × Option End :=
@@ -150,10 +158,7 @@ def serveAfterVersion (cfg : Config) (h : Handlers) (s0 : Sess) (body rest : Byt
   | none => finish s0 .closed [] [] stuffed
   | some cp =>
     let cps := sortParams cp
-    let tail := match s0.inp.tail with
-      | .eof _ => Tail.eof (!(leftover s0.inp.L rest).isEmpty)
-      | t => t
-    let s : Sess := { s0 with inp := { s0.inp with items := deframe s0.inp.L rest, tail := tail } }
+    let s := sessionStart s0 rest
     let user := (lookup (ascii "user") cp).getD []
     let db := (lookup (ascii "database") cp).getD []
     let authed := authPhase cfg h s db user
